@@ -347,6 +347,12 @@ func Generate(config *Config) (map[string][]byte, error) {
 	// in convert.go, and it additionally updates g.typeMap to include all the
 	// types it needs.
 	g := newGenerator(config, schema, document.Fragments)
+	// Convert the operations in a fixed order (by name), rather than in the
+	// order of the files they happen to be written in, so that the output
+	// (e.g. the numbering of import aliases) does not depend on the layout.
+	sort.SliceStable(document.Operations, func(i, j int) bool {
+		return document.Operations[i].Name < document.Operations[j].Name
+	})
 	for _, op := range document.Operations {
 		if err = g.addOperation(op); err != nil {
 			return nil, err
